@@ -92,6 +92,7 @@ type Runner struct {
 	StaleRestarted bool
 	Cond           map[string]bool // every oracle clause that has fired in this history
 	RejectedLeftPending bool       // a rejected reconfiguration left undelivered changes behind
+	NoShadow            bool       // concurrent mode: the order in which replies reach the runtime is unknown, skip runtime-view clauses
 }
 
 // BrokenStateSuffix names known-defective states the history has already been through; checks
